@@ -4,8 +4,9 @@ spec/ProjectPath.tla: Reference (the property's sentences) and Design (transcrip
 jedi/api/project.py Project.__init__/save/load/_get_base_sys_path/_get_sys_path/
 _remove_duplicates_from_path/get_default_project and of Script's use of it).
 
-legs: (1) TLC exhaustive Design |= Reference outside the two known shapes, and strict runs
-that must yield the known counterexamples, which are replayed on the real code;
+legs: (1) TLC exhaustive Design |= Reference (strict invariants, the Design models the repaired
+code), and what-if runs with each of the two repaired deviations switched back on, which must
+yield counterexamples; those are replayed on the real code and must show the repaired behaviour;
 (2) TLC-emitted cases (constructor arguments x script locations, discovery chains) rendered
 as directory trees + Project/Script objects, replayed, compared with the Design's prediction;
 (3) random, larger scenarios and corpus files recorded and judged by Trace_ProjectPath.tla;
@@ -52,16 +53,17 @@ CONSTANTS
   AddedIdx = {%(addedidx)s}
   EmitMod = %(mod)d
   EmitRem = %(rem)d
-  FixEnvPath = FALSE
-  FixRelProject = FALSE
+  FixEnvPath = %(fixenv)s
+  FixRelProject = %(fixrel)s
 %(props)s
 CHECK_DEADLOCK FALSE
 '''
-INVS = ['InvRoundTrip', 'InvSysPath', 'InvImport', 'InvKnownEnvPath', 'InvKnownRelProject', 'InvVariants']
+# the Design models the repaired code (FixEnvPath = FixRelProject = TRUE): the strict invariants hold everywhere
+INVS = ['RoundTripStrict', 'SysPathStrict', 'ImportStrict', 'InvVariants']
 
 
 def write_cfg(ctx, name, maxsys=0, maxadded=0, maxdepth=0, maxchain=0, sysidx=(), addedidx=(), mod=1, rem=0,
-              invs=(), constraint=None, disc=False):
+              invs=(), constraint=None, disc=False, fixenv=True, fixrel=True):
     p = os.path.join(ctx.tmp, name)
     props = ['INVARIANT %s' % i for i in invs]
     if constraint:
@@ -70,7 +72,8 @@ def write_cfg(ctx, name, maxsys=0, maxadded=0, maxdepth=0, maxchain=0, sysidx=()
         f.write(CFG % dict(init='DiscInit' if disc else 'Init', next='DiscNext' if disc else 'Next',
                            maxsys=maxsys, maxadded=maxadded, maxdepth=maxdepth, maxchain=maxchain,
                            sysidx=','.join(map(str, sysidx)), addedidx=','.join(map(str, addedidx)),
-                           mod=mod, rem=rem, props='\n'.join(props)))
+                           mod=mod, rem=rem, props='\n'.join(props),
+                           fixenv='TRUE' if fixenv else 'FALSE', fixrel='TRUE' if fixrel else 'FALSE'))
     return p
 
 
@@ -637,14 +640,14 @@ def run(ctx):
         confs = [dict(maxsys=2, maxadded=1, maxdepth=2, sysidx=(1, 3, 4, 5, 6, 7), addedidx=(1, 4, 7))]
     else:
         confs = [dict(maxsys=3, maxadded=1, maxdepth=1, sysidx=(1, 3, 4, 5, 6, 7), addedidx=(1, 3, 4, 6, 7)),
-                 dict(maxsys=2, maxadded=2, maxdepth=4, sysidx=(1, 3, 4, 7, 10, 13, 14), addedidx=(2, 7, 10))]
+                 dict(maxsys=2, maxadded=2, maxdepth=4, sysidx=(1, 3, 4, 7, 10, 13, 14), addedidx=(7, 10))]
     for n, c in enumerate(confs):
         cfg = write_cfg(ctx, 'mc%d.cfg' % n, invs=INVS, **c)
         res = run_tlc('ProjectPath', cfg, workers=16, timeout=3000)
         ctx.add_tlc(res, 'Design|=Reference exhaustive %s' % c)
         ctx.log('exhaustive %s: %d states %.0fs' % (c, res.distinct, res.wall))
         if res.violated:
-            raise MachineryError('ProjectPath.tla: design violates reference (%s) outside the known shapes; replay '
+            raise MachineryError('ProjectPath.tla: design violates reference (%s); replay '
                                  'the counterexample, then repair the model or record the finding:\n%s'
                                  % (res.violated, res.trace[-1:]))
         if res.distinct < 50000:
@@ -672,23 +675,28 @@ def run(ctx):
                           seed=ctx.seed * 1000003 + i, **kw))
         meta.append(origin)
 
-    # 2. strict invariants: the known deviations must come out as TLC counterexamples, and are replayed
+    # 2. sensitivity of the model: the two repaired deviations, switched back on one at a time (what-if
+    #    Designs), must still violate the strict Reference; their counterexamples are replayed on the real
+    #    code, which must now show the repaired behaviour (accepted by the Reference, no violation)
     small = dict(maxsys=1, maxadded=1, maxdepth=2, sysidx=(1, 3), addedidx=(1, 4))
     cex_expected = {}
-    for inv in ('CexRoundTrip', 'CexSysPath', 'CexImport'):
-        cfg = write_cfg(ctx, inv + '.cfg', invs=[inv], **small)
+    for inv, fixenv, fixrel, shape_flag in (('CexRoundTrip', False, True, 'kfEnvPath'),
+                                            ('CexSysPath', True, False, 'kfRelProject'),
+                                            ('CexImport', True, False, 'kfRelProject')):
+        cfg = write_cfg(ctx, inv + '.cfg', invs=[inv], fixenv=fixenv, fixrel=fixrel, **small)
         res = run_tlc('ProjectPath', cfg, workers=1, timeout=600)
-        ctx.add_tlc(res, 'strict invariant %s (counterexample expected while the deviation is unrepaired)' % inv)
+        ctx.add_tlc(res, 'what-if %s with FixEnvPath=%s FixRelProject=%s (counterexample required)'
+                    % (inv, fixenv, fixrel))
         cex = cases(res, 'CEX')
         if not res.violated or not cex:
-            raise MachineryError('%s: the Design (code as it is) no longer violates the strict Reference; '
-                                 'update FixEnvPath/FixRelProject and known_findings.d/C20.json' % inv)
+            raise MachineryError('%s: the unrepaired what-if Design no longer violates the strict Reference; the '
+                                 'spec has lost its sensitivity to this deviation' % inv)
         c = cex[0]
-        if not (c['kfEnvPath'] or c['kfRelProject']):
-            raise MachineryError('%s: counterexample outside the known shapes: %s' % (inv, json.dumps(c)[:1500]))
+        if not c[shape_flag]:
+            raise MachineryError('%s: what-if counterexample outside the expected shape: %s' % (inv, json.dumps(c)[:1500]))
         cex_expected[len(items)] = inv
-        add_item(c, 'cex:' + inv, pairs=99)
-    ctx.coverage['design_counterexamples'] = sorted(cex_expected.values())
+        add_item(c, 'whatif:' + inv, pairs=99)
+    ctx.coverage['whatif_design_counterexamples'] = sorted(cex_expected.values())
 
     # 3. emitted slice -> replay (spec -> code)
     if quick:
@@ -708,7 +716,7 @@ def run(ctx):
     n_tlc = len(items)
 
     # 4. random scenarios beyond the bounds (code -> spec)
-    for _ in range(200 if quick else 2000):
+    for _ in range(200 if quick else 1500):
         add_item(gen_case(ctx.rng), 'random', pairs=3, triples=True, env_set=True)
 
     ctx.log('replaying %d cases on the real code' % len(items))
@@ -759,7 +767,7 @@ def run(ctx):
     ctx.log('validating %d traces' % len(traces))
     verdicts = validate_traces('Trace_ProjectPath', 'Trace_ProjectPath.cfg', traces, ctx, 'Trace_ProjectPath')
 
-    stats = {'tlc_cases': 0, 'random_cases': 0, 'import_experiments': 0, 'oracle_import_checked': 0,
+    stats = {'tlc_cases': 0, 'random_cases': 0, 'whatif_cases': 0, 'import_experiments': 0, 'oracle_import_checked': 0,
              'discovery_chains': 0, 'corpus_files': 0, 'nonstr_entries': 0}
     for v, (kind, i) in zip(verdicts, back):
         if kind == 'case':
@@ -767,7 +775,7 @@ def run(ctx):
             ev = r['event']
             replay = {'item': {k: w for k, w in it.items() if k not in ('base', 'neutral')},
                       'concrete': r['concrete'], 'observed': ev, 'why': str(v['why'])}
-            stats['tlc_cases' if meta[i] != 'random' else 'random_cases'] += 1
+            stats['tlc_cases' if meta[i] == 'tlc' else 'random_cases' if meta[i] == 'random' else 'whatif_cases'] += 1
             stats['import_experiments'] += len(ev['wins'])
             stats['nonstr_entries'] += len(r['nonstr'])
             keys = [] if v['accepted'] else report(ctx, viol, case, ev['rt'][0], v, replay, meta[i])
@@ -785,14 +793,10 @@ def run(ctx):
                 if w['n'] > 1:
                     ctx.drift({'what': 'import resolved to several modules', 'case': replay})
             if i in cex_expected:
-                if v['accepted']:
-                    ctx.drift({'what': 'design counterexample %s not reproduced by the code' % cex_expected[i],
-                               'concrete': r['concrete']})
-                    ctx.notes.append('TLC counterexample %s did not reproduce: the deviation seems repaired; '
-                                     'set the Fix* constants and retire the known finding' % cex_expected[i])
-                else:
-                    ctx.coverage.setdefault('counterexamples_reproduced', {})[cex_expected[i]] = keys
-            if meta[i] != 'random' and 'p' in case:
+                # rejected -> already reported above as a violation (the repair is gone); accepted -> repaired
+                ctx.coverage.setdefault('whatif_counterexamples_on_real_code', {})[cex_expected[i]] = \
+                    'repaired behaviour (accepted)' if v['accepted'] else 'REPRODUCED: %s' % keys
+            if meta[i] == 'tlc' and 'p' in case:
                 diffs = compare_design(case, r)
                 if diffs:
                     ctx.drift({'case': {k: case[k] for k in ('args', 'env', 'script', 'initDirs')},
